@@ -228,36 +228,31 @@ def cfgOf (es : Batch) : List (Nat × Bool) :=
 theorem cfgOf_append (a b : Batch) : cfgOf (a ++ b) = cfgOf a ++ cfgOf b := by
   unfold cfgOf; exact List.filterMap_append
 
-/-- No failing config change in the fetched entries: membership is called for every Config entry, in order. -/
-theorem pb_fold_cfg (es : Batch) (a : PB) (hok : ∀ e ∈ es, e.2 ≠ Payload.config false) (ha : a.err = false) :
-    (es.foldl pbStep a).err = false ∧ (es.foldl pbStep a).cfg = a.cfg ++ cfgOf es := by
+/-- Membership is called for every Config entry of the fetched entries, in order, exactly once — also
+    after an earlier change of the same `process_batch` call was rejected (fix ff1aa00). -/
+theorem pb_fold_cfg_all (es : Batch) (a : PB) :
+    (es.foldl pbStep a).cfg = a.cfg ++ cfgOf es := by
   induction es generalizing a with
-  | nil => simp [cfgOf, ha]
+  | nil => simp [cfgOf]
   | cons e es ih =>
-    rw [List.foldl_cons]
-    have he := hok e (by simp)
-    have hrest : ∀ x ∈ es, x.2 ≠ Payload.config false := fun x hx => hok x (List.mem_cons_of_mem _ hx)
-    have hstep : (pbStep a e).err = false ∧ (pbStep a e).cfg = a.cfg ++ cfgOf [e] := by
+    rw [List.foldl_cons, ih]
+    have hstep : (pbStep a e).cfg = a.cfg ++ cfgOf [e] := by
       unfold pbStep cfgOf
       split <;> simp_all
-    obtain ⟨h1, h2⟩ := ih (pbStep a e) hrest hstep.1
-    refine ⟨h1, ?_⟩
-    rw [h2, hstep.2, List.append_assoc, ← cfgOf_append]
+    rw [hstep, List.append_assoc, ← cfgOf_append]
     rfl
 
-/-- After a failed config change the same `process_batch` call makes no further membership calls
-    (`if last_error.is_none() && …`): later Config entries of that call are sent to the state machine
-    (as no-ops) but never reach `Membership::apply_config_change`. -/
-theorem pb_fold_cfg_after_error (es : Batch) (a : PB) (ha : a.err = true) :
-    (es.foldl pbStep a).cfg = a.cfg ∧ (es.foldl pbStep a).err = true := by
+/-- Without a rejected change the loop ends without error (nothing is held back). -/
+theorem pb_fold_cfg (es : Batch) (a : PB) (hok : ∀ e ∈ es, e.2 ≠ Payload.config false) (ha : a.err = false) :
+    (es.foldl pbStep a).err = false ∧ (es.foldl pbStep a).cfg = a.cfg ++ cfgOf es := by
+  refine ⟨?_, pb_fold_cfg_all es a⟩
   induction es generalizing a with
-  | nil => exact ⟨rfl, ha⟩
+  | nil => exact ha
   | cons e es ih =>
     rw [List.foldl_cons]
-    have hstep : (pbStep a e).cfg = a.cfg ∧ (pbStep a e).err = true := by
-      unfold pbStep
-      split <;> simp_all
-    obtain ⟨h1, h2⟩ := ih (pbStep a e) hstep.2
-    exact ⟨h1.trans hstep.1, h2⟩
+    apply ih _ (fun x hx => hok x (List.mem_cons_of_mem _ hx))
+    have he := hok e (by simp)
+    unfold pbStep
+    split <;> simp_all
 
 end DEngine.Apply
